@@ -80,7 +80,7 @@ type Kernel struct {
 	// Observer, when set, is told about every release (used by oracles that watch hook points).
 	Observer func(role, point string, now time.Duration)
 	// Hold lets a property delay a goroutine at a point: return true to keep it parked for now.
-	Hold func(g *Gor, parked []*Gor, now time.Duration) bool
+	Hold  func(g *Gor, parked []*Gor, now time.Duration) bool
 	Holds int
 }
 
